@@ -28,6 +28,18 @@ pub fn rt() -> &'static tokio::runtime::Runtime {
     })
 }
 
+/// Path of this binary for spawning workers. When the file was replaced while
+/// the process runs (a rebuild), Linux reports "<path> (deleted)"; the new file
+/// at <path> is the same program one build later and is used instead.
+pub fn self_exe() -> std::path::PathBuf {
+    let p = std::env::current_exe().expect("current exe");
+    let s = p.to_string_lossy().to_string();
+    match s.strip_suffix(" (deleted)") {
+        Some(t) => std::path::PathBuf::from(t),
+        None => p,
+    }
+}
+
 static PANICS: Mutex<Vec<String>> = Mutex::new(Vec::new());
 
 /// Install a panic hook that records every panic message (including ones the
@@ -42,7 +54,7 @@ pub fn install_panic_hook() {
             "<non-string panic>".to_string()
         };
         let loc = info.location().map(|l| format!("{}:{}", l.file(), l.line())).unwrap_or_default();
-        if loc.starts_with("src/") {
+        if loc.starts_with("src/") || std::env::var("QE_VERIF_SHOW_PANICS").is_ok() || std::thread::current().name() == Some("main") {
             // a bug in the harness itself: never swallow it
             eprintln!("HARNESS PANIC: {} @ {}", msg, loc);
         }
@@ -128,6 +140,29 @@ pub fn run_sql_t(ctx: &Arc<ExecutionContext>, sql: &str, timeout: Duration) -> O
     let sql = sql.to_string();
     let h = rt().spawn(async move { ctx.sql(&sql).await });
     finish(h, timeout, |r| answer_of(&r.schema, &r.batches))
+}
+
+/// `run_sql` for callers that already run on the harness runtime.
+pub async fn run_sql_async(ctx: &Arc<ExecutionContext>, sql: &str) -> Outcome {
+    let ctx = ctx.clone();
+    let sql = sql.to_string();
+    let h = rt().spawn(async move { ctx.sql(&sql).await });
+    let abort = h.abort_handle();
+    match tokio::time::timeout(DEFAULT_TIMEOUT, h).await {
+        Ok(Ok(Ok(r))) => Outcome::Ok(answer_of(&r.schema, &r.batches)),
+        Ok(Ok(Err(e))) => Outcome::Err(e.to_string()),
+        Ok(Err(join)) => {
+            if join.is_panic() {
+                Outcome::Panic("panic in ctx.sql".into())
+            } else {
+                Outcome::Err(format!("task cancelled: {}", join))
+            }
+        }
+        Err(_) => {
+            abort.abort();
+            Outcome::Timeout
+        }
+    }
 }
 
 pub fn run_sql_batches(ctx: &Arc<ExecutionContext>, sql: &str) -> Result<(SchemaRef, Vec<RecordBatch>), String> {
